@@ -997,10 +997,19 @@ impl fmt::Display for Type1<'_> {
 
     t1_str.push_str(&self.type2.to_string());
 
-    if let Type2::Typename { .. } = self.type2 {
-      if self.operator.is_some() {
-        t1_str.push(' ');
-      }
+    // A name needs the spaces (`a..b` is one identifier), and so does every
+    // control operator: `"abc".size3` reads as the control `.size3`
+    let spaced = matches!(self.type2, Type2::Typename { .. })
+      || matches!(
+        &self.operator,
+        Some(Operator {
+          operator: RangeCtlOp::CtlOp { .. },
+          ..
+        })
+      );
+
+    if spaced && self.operator.is_some() {
+      t1_str.push(' ');
     }
 
     #[cfg(feature = "ast-comments")]
@@ -1015,7 +1024,7 @@ impl fmt::Display for Type1<'_> {
         t1_str.push_str(&comments.to_string());
       }
 
-      if let Type2::Typename { .. } = self.type2 {
+      if spaced {
         t1_str.push(' ');
       }
 
@@ -1030,7 +1039,7 @@ impl fmt::Display for Type1<'_> {
     if let Some(o) = &self.operator {
       t1_str.push_str(&o.operator.to_string());
 
-      if let Type2::Typename { .. } = self.type2 {
+      if spaced {
         t1_str.push(' ');
       }
 
